@@ -1180,6 +1180,33 @@ class ExprMixin(object):
                 self.event("int_division", node, module, st)
             if isinstance(op, ast.Pow) and isinstance(a, Const) and isinstance(b, Const):
                 return Const(self.ce.binop(module, node, a.v, b.v, "E5.const"))
+        if isinstance(op, (ast.Sub, ast.BitOr, ast.BitAnd, ast.BitXor)) and isinstance(a, Ref) and isinstance(b, Ref):
+            oa, ob = st.heap[a.id], st.heap[b.id]
+            if oa.kind == "set" and ob.kind == "set":
+                # set algebra on sets of constants
+                def consts(o):
+                    if all(isinstance(g, Const) and truth_const(g.v) and isinstance(x, Const) for g, x in o.items):
+                        out_ = []
+                        for _, x in o.items:
+                            if x.v not in out_:
+                                out_.append(x.v)
+                        return out_
+                    return None
+
+                ca, cb = consts(oa), consts(ob)
+                if ca is not None and cb is not None:
+                    if isinstance(op, ast.Sub):
+                        r_ = [x for x in ca if x not in cb]
+                    elif isinstance(op, ast.BitAnd):
+                        r_ = [x for x in ca if x in cb]
+                    elif isinstance(op, ast.BitOr):
+                        r_ = ca + [x for x in cb if x not in ca]
+                    else:
+                        r_ = [x for x in ca if x not in cb] + [x for x in cb if x not in ca]
+                    lo = ListObj([(TRUE, Const(x)) for x in r_])
+                    lo.kind = "set"
+                    lo.hash_ordered = True
+                    return self.alloc(st, lo)
         if isinstance(op, (ast.BitOr, ast.BitAnd, ast.BitXor, ast.LShift, ast.RShift, ast.MatMult)):
             raise AnalysisError("E5.expr", "bit/matrix operator", node, module)
         pa = self.to_poly(st, a, node, module)
